@@ -223,6 +223,9 @@ func verifOptions(dir string, tag string) Options {
 		o.FileIOType = fio.FileIOType(verifChoice("cfg-io", 2))
 		o.SyncStrategy = SyncStrategy(verifChoice("cfg-sync", 4-sw)) // cfgsweep 2: No / Always only (Threshold adds a symbolic BytesPerSync)
 	}
+	if verifParam("bgmerge") == 1 {
+		o.EnableBackgroundMerge = true // the ticker never fires in the engine's time model; the goroutine waits for Close
+	}
 	if pct := verifParam("ratio_pct"); pct > 0 {
 		o.DataFileMergeRatio = float32(pct) / 100
 	}
